@@ -614,6 +614,22 @@ impl Hasher for ModHasher {
     }
 }
 
+/// zero-sized element with drop glue and a process-wide ledger (drops may happen on pool threads)
+static ZG_LIVE: std::sync::atomic::AtomicI64 = std::sync::atomic::AtomicI64::new(0);
+#[derive(PartialEq, Eq, Hash)]
+pub struct ZG(());
+impl ZG {
+    fn new() -> Self {
+        ZG_LIVE.fetch_add(1, Ordering::SeqCst);
+        ZG(())
+    }
+}
+impl Drop for ZG {
+    fn drop(&mut self) {
+        ZG_LIVE.fetch_sub(1, Ordering::SeqCst);
+    }
+}
+
 /// bytes currently held from `CountAlloc` (process-wide: blocks may be returned on another thread)
 static COUNTED: std::sync::atomic::AtomicI64 = std::sync::atomic::AtomicI64::new(0);
 #[derive(Clone, Copy, Default)]
@@ -830,6 +846,50 @@ fn pool_checks(threads: usize, ids: &[u16], other: &[u16], hb: u8) -> Result<u64
                 let after = COUNTED.load(Ordering::SeqCst);
                 if after != before {
                     return Err(format!("{}: {} bytes of table memory were not returned to the allocator (consumer mode {mode}: 0 complete, 1 short-circuit, 2 panic)", ctx("into_par_iter"), after - before));
+                }
+            }
+        }
+        // zero-sized elements with drop glue: whatever the consumer leaves behind is dropped exactly once
+        if ids.len() >= 2 {
+            for mode in 0..3u8 {
+                let before = ZG_LIVE.load(Ordering::SeqCst);
+                {
+                    let mut zt: HashTable<ZG> = HashTable::new();
+                    for (i, _) in ids.iter().enumerate() {
+                        zt.insert_unique((i as u64).wrapping_mul(0x9E37_79B9_7F4A_7C15), ZG::new(), |_| unreachable!("enough capacity reserved"));
+                        if i == 0 {
+                            zt.reserve(ids.len(), |_| 0);
+                        }
+                    }
+                    let mut zs: HashSet<ZG, ModBuild> = HashSet::with_hasher(ModBuild(hb));
+                    zs.insert(ZG::new());
+                    let seen = std::sync::atomic::AtomicUsize::new(0);
+                    match mode {
+                        0 => {
+                            let _ = zt.par_drain().find_any(|_| seen.fetch_add(1, Ordering::SeqCst) == 1);
+                            let _ = zs.par_drain().find_any(|_| true);
+                        }
+                        1 => {
+                            let r = std::panic::catch_unwind(std::panic::AssertUnwindSafe(|| zt.par_drain().for_each(|_| assert!(seen.fetch_add(1, Ordering::SeqCst) != 1, "consumer panic"))));
+                            if r.is_ok() {
+                                return Err(ctx("par_drain of zero-sized elements: the consumer's panic was swallowed"));
+                            }
+                            zs.clear();
+                        }
+                        _ => {
+                            let _ = zt.into_par_iter().find_any(|_| seen.fetch_add(1, Ordering::SeqCst) == 1);
+                            let _ = zs.into_par_iter().find_any(|_| true);
+                            zt = HashTable::new();
+                            zs = HashSet::with_hasher(ModBuild(hb));
+                        }
+                    }
+                    if !zt.is_empty() || !zs.is_empty() {
+                        return Err(ctx("par_drain of zero-sized elements left elements behind"));
+                    }
+                }
+                let after = ZG_LIVE.load(Ordering::SeqCst);
+                if after != before {
+                    return Err(format!("{}: {} zero-sized element(s) with drop glue were never dropped (consumer mode {mode}: 0 short-circuit, 1 panic, 2 owning iterator)", ctx("par_drain / into_par_iter"), after - before));
                 }
             }
         }
